@@ -98,6 +98,11 @@ func (p *Prog) InlineHelpers(noInline map[string]bool) (inlined []string, remove
 				if e := ssa.FinishInlining(f, &buf); e != nil {
 					return inlined, removed, fmt.Errorf("%v: %s", e, buf.String())
 				}
+				if ssa.ThreadJumps(f) > 0 {
+					if e := ssa.FinishInlining(f, &buf); e != nil {
+						return inlined, removed, fmt.Errorf("jump threading: %v: %s", e, buf.String())
+					}
+				}
 			}
 		}
 		if !changedAny {
